@@ -110,6 +110,20 @@ def wrap_run_sql():
     sqlmod.SQLExecutor.run_sql = run_sql
 
 
+def wrap_graph():
+    """Record the node order the real EvolutionGraph yields."""
+    from django_evolution.utils.graph import EvolutionGraph
+    orig = EvolutionGraph.iter_batches
+
+    def iter_batches(self):
+        keys = []
+        for batch_type, nodes in orig(self):
+            keys += [n.key for n in nodes]
+            yield batch_type, nodes
+        emit('graph', keys=keys)
+    EvolutionGraph.iter_batches = iter_batches
+
+
 SIGNALS = ('evolving', 'evolved', 'evolving_failed', 'applying_evolution',
            'applied_evolution', 'applying_migration', 'applied_migration',
            'creating_models', 'created_models')
@@ -155,7 +169,11 @@ def outcome_of(exc):
         return {'ok': True}
     o = {'ok': False, 'exc': type(exc).__name__, 'msg': str(exc)[:400],
          'site': exc_site(exc),
-         'mro': [c.__name__ for c in type(exc).__mro__][:6]}
+         'mro': [c.__name__ for c in type(exc).__mro__][:6],
+         'frames': ['%s:%s:%d' % (os.path.basename(f.filename), f.name,
+                                  f.lineno)
+                    for f in traceback.extract_tb(exc.__traceback__)
+                    if '/django_evolution/' in f.filename][-8:]}
     last = getattr(exc, 'last_sql_statement', None)
     if last:
         o['last_sql'] = str(last[0])[:300]
@@ -189,6 +207,14 @@ def sig_facts(alias='default'):
     facts['evolutions'] = sorted(
         [e.app_label, e.label, e.version_id]
         for e in Evolution.objects.using(alias).all())
+    try:
+        from django.db import connections
+        cur = connections[alias].cursor()
+        cur.execute('SELECT app, name FROM django_migrations ORDER BY id')
+        facts['django_migrations'] = [list(r) for r in cur.fetchall()]
+        cur.close()
+    except Exception:
+        facts['django_migrations'] = None
     ser = stored.serialize()
     facts['stored_apps'] = {
         app: {'models': sorted(d.get('models', {})),
@@ -282,6 +308,10 @@ def run_action(action, args):
             call_command('wipe-evolution', *['%s.%s' % (args['app'], l)
                                              for l in args['labels']],
                          interactive=False, stdout=out, stderr=err)
+        elif action == 'makemigrations':
+            call_command('makemigrations', args['app'], name=args['name'],
+                         interactive=False, verbosity=0, stdout=out,
+                         stderr=err)
         elif action == 'status':
             from django_evolution.evolve import Evolver
             ev = Evolver(database_name=alias)
@@ -309,6 +339,7 @@ def main():
         attach_connection(alias)
     attach_signals()
     wrap_run_sql()
+    wrap_graph()
     action = os.environ['PL_ACTION']
     args = json.loads(os.environ.get('PL_ARGS') or '{}')
     if action == 'fault_loop':
